@@ -120,7 +120,7 @@ def run_property(prop, tier, seed, only=None):
         h = r["spec"]
         extra = list(h.get("extra", [])) + ["-Z", "stubbing"]
         try:
-            return kani.playback(h["crate"], h["name"], extra, timeout_s=max(1800, 2 * h.get("timeout", 1200)), mem_gb=h.get("mem_gb", 12) + 2)
+            return kani.playback(h["crate"], h["name"], extra, timeout_s=max(1800, 2 * h.get("timeout", 1200)), mem_gb=max(24, h.get("mem_gb", 12) + 8))
         except Exception as e:  # tooling problem
             return {"tests": [], "error": repr(e)}
 
